@@ -74,8 +74,11 @@ def make_geometry(rng, cls_name, n=None):
     n = rng.choice([0, 1, 2, 3, 7, 20, 60]) if n is None else n
     atoms = []
     for i in range(n):
-        if rng.random() < 0.1:
+        r = rng.random()
+        if r < 0.08:
             atoms.append(Atom(Element.Unknown, atype=AtomType.Dummy))
+        elif r < 0.16:
+            atoms.append(Atom(rng.choice(list(Element)), atype=AtomType.Dummy))     # a dummy-typed atom that has an element
         else:
             atoms.append(Atom(rng.choice(list(Element))))
     g = cls(atoms, name=rng.choice(["g", "name with spaces", "ünicode", "x" * 40, "12"]), coords=rand_coords(rng, n) if n else None)
